@@ -323,3 +323,97 @@ func TestVerifServerScenarios(t *testing.T) {
 	}
 	_ = syscall.EBADF
 }
+
+// TestVerifServerEMFILE: descriptor exhaustion while a client waits in the accept queue (C13: "under descriptor
+// exhaustion accepting resumes once descriptors are available again").  Runs in a process of its own (it lowers
+// RLIMIT_NOFILE).  VERIF_OUT receives the events for ServerObs: Exhausted(ms), ResumeCheck(ok queued client, ok new client).
+func TestVerifServerEMFILE(t *testing.T) {
+	outp := os.Getenv("VERIF_OUT")
+	if outp == "" || os.Getenv("VERIF_EMFILE") == "" {
+		t.Skip("VERIF_OUT/VERIF_EMFILE not set")
+	}
+	hold := 2600 * time.Millisecond
+	if v := os.Getenv("VERIF_EMFILE"); v == "short" {
+		hold = 300 * time.Millisecond
+	}
+	var evs []vOutEvent
+	emit := func(e string, n, m int, err string) {
+		evs = append(evs, vOutEvent{E: e, G: "env", N: n, M: m, Err: err})
+	}
+	defer func() {
+		f, _ := os.Create(outp)
+		json.NewEncoder(f).Encode(map[string]interface{}{"scenario": "emfile-" + os.Getenv("VERIF_EMFILE"), "info": map[string]interface{}{"stuck": ""}, "events": evs})
+		f.Close()
+	}()
+	ln, err := CreateListener("tcp", "127.0.0.1:0")
+	if err != nil {
+		emit("SetupErr", 0, 0, err.Error())
+		return
+	}
+	evl, _ := NewEventLoop(func(ctx context.Context, c Connection) error {
+		n := c.Reader().Len()
+		p, _ := c.Reader().Next(n)
+		c.Writer().WriteBinary(append([]byte(nil), p...))
+		c.Reader().Release()
+		return c.Writer().Flush()
+	})
+	go evl.Serve(ln)
+	defer func() {
+		ctx, cancel := context.WithTimeout(context.Background(), 500*time.Millisecond)
+		evl.Shutdown(ctx)
+		cancel()
+	}()
+	time.Sleep(20 * time.Millisecond)
+	addr := ln.Addr().(*net.TCPAddr)
+	// the client socket exists before the descriptors run out
+	cfd, err := syscall.Socket(syscall.AF_INET, syscall.SOCK_STREAM, 0)
+	if err != nil {
+		emit("SetupErr", 0, 0, err.Error())
+		return
+	}
+	defer syscall.Close(cfd)
+	var lim syscall.Rlimit
+	syscall.Getrlimit(syscall.RLIMIT_NOFILE, &lim)
+	old := lim
+	lim.Cur = 160
+	syscall.Setrlimit(syscall.RLIMIT_NOFILE, &lim)
+	defer syscall.Setrlimit(syscall.RLIMIT_NOFILE, &old)
+	var fill []int
+	for {
+		fd, err := syscall.Open("/dev/null", syscall.O_RDONLY, 0)
+		if err != nil {
+			break
+		}
+		fill = append(fill, fd)
+	}
+	emit("Init", 1, 0, "")
+	sa := &syscall.SockaddrInet4{Port: addr.Port, Addr: [4]byte{127, 0, 0, 1}}
+	if err := syscall.Connect(cfd, sa); err != nil {
+		emit("SetupErr", 0, 0, "connect: "+err.Error())
+		return
+	}
+	syscall.Write(cfd, []byte("ping"))
+	time.Sleep(hold)
+	emit("Exhausted", int(hold/time.Millisecond), len(fill), "")
+	for _, fd := range fill {
+		syscall.Close(fd)
+	}
+	// the queued client is served
+	ok1 := 0
+	syscall.SetsockoptTimeval(cfd, syscall.SOL_SOCKET, syscall.SO_RCVTIMEO, &syscall.Timeval{Sec: 4})
+	buf := make([]byte, 8)
+	if n, _ := syscall.Read(cfd, buf); n == 4 && string(buf[:4]) == "ping" {
+		ok1 = 1
+	}
+	// and so is a new one
+	ok2 := 0
+	if c2, err := net.DialTimeout("tcp", ln.Addr().String(), 2*time.Second); err == nil {
+		c2.SetDeadline(time.Now().Add(3 * time.Second))
+		c2.Write([]byte("pong"))
+		if n, _ := c2.Read(buf); n == 4 && string(buf[:4]) == "pong" {
+			ok2 = 1
+		}
+		c2.Close()
+	}
+	emit("ResumeCheck", ok1, ok2, "")
+}
